@@ -23,6 +23,15 @@ structural reader ``models/table_reader.py`` (column positions from the '+' mark
                        the first line iterator is advanced k lines (every k), then the second is started and
                        exhausted, then the first is finished; also strictly alternating. Each table is judged alone.
 
+  F10 equal values   : all sequences of 1..3 values of {1, True, 1.0, 0, False, 0.0, 2, 2.0} in one column, all pairs in
+                       two columns, and all two-table sequences (second table printed after the first, no reset):
+                       a cell shows str() of ITS value
+  colored pass        : F5 and F10 tables and the strictly alternating pairs of F7 are also printed with the default
+                       colored palette, all line objects collected first and rendered afterwards; the visible text
+                       must satisfy the same oracle
+  (state)             : before every case the mutable module/class-level state of ak.ppobj is restored to its
+                       import-time snapshot (reset_world), so that no case depends on earlier tables and every
+                       violation replays from a fresh process
   F8 print / grow    : a table is printed, records are appended to the caller's list (shorter, longer, None values,
                        enough to make limits apply), the table is printed again: each complete printing is judged
                        against the records it started with (after the first printing the widths are settled, so a
@@ -46,6 +55,63 @@ import itertools
 from ak.color import CHText
 from ak.ppobj import PPTable, PPEnumFieldType
 from models import table_reader as tr
+
+import weakref
+
+import ak.ppobj as _ppobj
+
+
+def _snapshot_module_state(mod):
+    """Every mutable container reachable as: module global / attribute of a class defined in the module /
+    attribute of an instance of such a class that hangs on the module or on one of its classes (singletons such
+    as ReprStructure._DFLT_FIELD_TYPE).  -> list of (container, pristine copy), list of (instance, pristine keys)."""
+    containers, instances, seen = [], [], set()
+    kinds = (dict, list, set, weakref.WeakKeyDictionary, weakref.WeakValueDictionary)
+
+    def note(value):
+        if id(value) in seen:
+            return
+        if isinstance(value, kinds):
+            seen.add(id(value))
+            containers.append((value, value.copy()))
+        elif isinstance(value, type):
+            if getattr(value, "__module__", None) == mod.__name__:
+                seen.add(id(value))
+                for v in list(vars(value).values()):
+                    note(v)
+        elif type(value).__module__ == mod.__name__:
+            seen.add(id(value))
+            d = getattr(value, "__dict__", None)
+            if d is not None:
+                instances.append((value, set(d)))
+                for v in list(d.values()):
+                    note(v)
+            for name in getattr(type(value), "__slots__", ()):
+                if hasattr(value, name):
+                    note(getattr(value, name))
+    for v in list(vars(mod).values()):
+        note(v)
+    return containers, instances
+
+
+_PRISTINE = _snapshot_module_state(_ppobj)
+
+
+def reset_world():
+    """Put the module-level / class-level mutable state of ak.ppobj back to what it was at import, so that a case
+    never depends on the tables printed before it in the same process (and replays from a fresh process)."""
+    containers, instances = _PRISTINE
+    for obj, keys in instances:
+        for name in [n for n in vars(obj) if n not in keys]:
+            delattr(obj, name)
+    for live, pristine in containers:
+        if isinstance(live, list):
+            if live != pristine:
+                live[:] = pristine
+        elif len(live) != len(pristine) or isinstance(live, set) or live != pristine:
+            live.clear()
+            live.update(pristine)
+
 
 ID = "C12"
 TITLE = "Tables are rectangular, aligned, width-bounded and account for every record"
@@ -105,6 +171,8 @@ REQUIRED_FEATURES = [
     "footer:default", "titles:multi-line", "titles:uneven-line-counts",
     "interleave:one-preemption", "interleave:zip", "interleave:same-table-object",
     "interleave:second-started-while-first-suspended",
+    "colored:kept-lines-pass", "colored:interleaved-zip", "value:equal-values-of-different-types",
+    "sequence:tables-in-one-process", "sequence:equal-values-of-other-type-in-second-table",
     "reprint:records-appended", "reprint:longer-value-appended", "reprint:limits-start-to-apply",
     "shared-fmt:second-table-from-fmt_obj", "shared-fmt:limits-on-second", "shared-fmt:skip_columns-on-second",
     "shared-fmt:remove_columns-on-second", "shared-fmt:first-mid-iteration", "shared-fmt:first-printed-before",
@@ -493,7 +561,7 @@ def case_features(case, feats):
             feats.add("titles:uneven-line-counts")
 
 
-NONTRIVIAL = {"reprint:records-appended", "shared-fmt:second-table-from-fmt_obj",
+NONTRIVIAL = {"sequence:tables-in-one-process", "value:equal-values-of-different-types", "reprint:records-appended", "shared-fmt:second-table-from-fmt_obj",
               "interleave:second-started-while-first-suspended", "interleave:zip", "cell:longer-than-max", "width:zero", "body:break-line", "limits:must-apply", "limits:n+m+1",
               "enum:full", "enum:val", "enum:name", "enum:default-modifier", "header:longer-than-table",
               "footer:longer-than-table", "titles:multi-line", "title:longer-than-max"}
@@ -628,7 +696,34 @@ def check_shared_fmt(case, acc):
     return v, feats, after[0][1]
 
 
+def _colored_kept_lines(table, feats):
+    """Default (colored) palette: all line objects are collected first, rendered afterwards; -> visible text."""
+    kept = list(table.ch_text())
+    return "\n".join(_line_text(ln, feats) for ln in kept)
+
+
+def check_sequence(case, acc):
+    """Several tables printed one after another in one process, no state reset in between: each must show its
+    own values (equal-but-differently-typed values 1 / True / 1.0 ... must not be confused)."""
+    feats = set()
+    texts = []
+    try:
+        for c in case["sequence"]:
+            acc.trans(1)
+            texts.append(_print_both(make_table(c), feats))
+    except Exception as e:  # noqa
+        return (f"sequence:raises:{type(e).__name__}", f"raised {type(e).__name__}: {e}", repr(e), "tables"), feats, None
+    for i, (c, rend) in enumerate(zip(case["sequence"], texts)):
+        v = _verify_all(c, rend, feats if i == 0 else set(), f"sequence:table-{i}:")
+        if v is not None:
+            return v, feats, texts[0][0][1]
+    return None, feats, texts[0][0][1]
+
+
 def check_case(case, acc):
+    reset_world()
+    if "sequence" in case:
+        return check_sequence(case, acc)
     if "interleave" in case:
         return check_interleaved(case, acc)
     if "reprint" in case:
@@ -654,6 +749,17 @@ def check_case(case, acc):
         v2 = verify(case, "\n".join(later), set())
         if v2 is not None:
             v = ("kept-lines:" + v2[0],) + v2[1:]
+    if v is None and case.get("colored"):
+        acc.trans(1)
+        try:
+            ctext = _colored_kept_lines(make_table(case), feats)
+        except Exception as e:  # noqa
+            return (f"colored:raises:{type(e).__name__}", f"colored printing raised {type(e).__name__}: {e}",
+                    repr(e), "a table"), feats, text
+        if ctext != text:
+            v2 = verify(case, ctext, set())
+            if v2 is not None:
+                v = ("colored-kept-lines:" + v2[0],) + v2[1:]
     return v, feats, text
 
 
@@ -675,7 +781,10 @@ def check_interleaved(case, acc):
     try:
         t1 = make_table(c1)
         t2 = t1 if spec.get("same_object") else make_table(c2)
-        g1, g2 = iter(t1.ch_text(no_color=True)), iter(t2.ch_text(no_color=True))
+        if spec.get("colored"):
+            g1, g2 = iter(t1.ch_text()), iter(t2.ch_text())
+        else:
+            g1, g2 = iter(t1.ch_text(no_color=True)), iter(t2.ch_text(no_color=True))
         l1, l2 = [], []
         if k == "zip":
             live = [(g1, l1), (g2, l2)]
@@ -716,6 +825,13 @@ def _one(acc, case, n):
             feats.add("interleave:same-table-object")
         if 0 < (spec["k"] if spec["k"] != "zip" else 0) < ref_line_count(spec["t1"]):
             feats.add("interleave:second-started-while-first-suspended")
+    elif "sequence" in case:
+        for c in case["sequence"]:
+            case_features(c, feats)
+        feats.add("sequence:tables-in-one-process")
+        vals = [[x for r in c["records"] for x in r] for c in case["sequence"]]
+        if len(vals) > 1 and any(a == b and type(a) is not type(b) for a in vals[0] for b in vals[1]):
+            feats.add("sequence:equal-values-of-other-type-in-second-table")
     elif "reprint" in case:
         spec = case["reprint"]
         case_features(spec["t"], feats)
@@ -743,6 +859,13 @@ def _one(acc, case, n):
                   "shared-fmt:first-not-printed-before")
     else:
         case_features(case, feats)
+        if case.get("colored"):
+            feats.add("colored:kept-lines-pass")
+        vals = [x for r in case["records"] for x in r if not isinstance(x, str) and x is not None]
+        if any(a == b and type(a) is not type(b) for a in vals for b in vals):
+            feats.add("value:equal-values-of-different-types")
+    if "interleave" in case and case["interleave"].get("colored"):
+        feats.add("colored:interleaved-zip")
     if v is None:
         body = "all" if "obs:limits:applied" not in feats else "limited"
         trunc = "trunc" if "obs:cell:truncated" in feats else "full"
@@ -903,6 +1026,7 @@ def fam_F5(tier):
             case["footer"] = ftr
         if tit is not None:
             case["titles"] = tit
+        case["colored"] = 1          # additionally: colored palette, all lines collected, then rendered
         yield case
 
 
@@ -944,6 +1068,7 @@ def fam_F7(tier):
         n1 = ref_line_count(c1)
         for j, c2 in enumerate(tables):
             ks = list(range(0, n1 + 1)) + ["zip"]
+            yield {"interleave": {"t1": c1, "t2": c2, "k": "zip", "colored": 1}}
             for k in ks:
                 yield {"interleave": {"t1": c1, "t2": c2, "k": k}}
                 if i == j:
@@ -1009,9 +1134,25 @@ def fam_F9(tier):
             yield {"shared_fmt": spec}
 
 
-FAMILIES = {"F8": fam_F8, "F9": fam_F9, "F7": fam_F7, "F1": fam_F1, "F2": fam_F2, "F3": fam_F3, "F4": fam_F4, "F5": fam_F5, "F6": fam_F6}
-PARTS = {"quick": {"F8": 4, "F9": 8, "F7": 8, "F1": 12, "F2": 24, "F3": 24, "F4": 16, "F5": 12, "F6": 12},
-         "thorough": {"F8": 8, "F9": 8, "F7": 16, "F1": 32, "F2": 64, "F3": 64, "F4": 48, "F5": 32, "F6": 32}}
+V_EQUAL = [1, True, 1.0, 0, False, 0.0, 2, 2.0]
+
+
+def fam_F10(tier):
+    """values that are == but of different types (one cache key, different text)"""
+    for seq, w in itertools.product(list(_seqs(V_EQUAL, 1, 3)), [None, [3], [0, 2]]):
+        yield {"fields": ["v"], "records": [[x] for x in seq], "cols": [{"f": "v", "w": w}], "colored": 1}
+    for a, b, w in itertools.product(V_EQUAL, V_EQUAL, [None, [2]]):
+        yield {"fields": ["a", "b"], "records": [[a, b], [b, a]], "cols": [{"f": "a", "w": w}, {"f": "b", "w": w}],
+               "colored": 1}
+    seqs = list(_seqs(V_EQUAL, 1, 2))
+    for s1, s2 in itertools.product(seqs, seqs):
+        yield {"sequence": [{"fields": ["v"], "records": [[x] for x in s1], "cols": [{"f": "v", "w": None}]},
+                            {"fields": ["v"], "records": [[x] for x in s2], "cols": [{"f": "v", "w": None}]}]}
+
+
+FAMILIES = {"F10": fam_F10, "F8": fam_F8, "F9": fam_F9, "F7": fam_F7, "F1": fam_F1, "F2": fam_F2, "F3": fam_F3, "F4": fam_F4, "F5": fam_F5, "F6": fam_F6}
+PARTS = {"quick": {"F10": 4, "F8": 4, "F9": 8, "F7": 8, "F1": 12, "F2": 24, "F3": 24, "F4": 16, "F5": 12, "F6": 12},
+         "thorough": {"F10": 4, "F8": 8, "F9": 8, "F7": 16, "F1": 32, "F2": 64, "F3": 64, "F4": 48, "F5": 32, "F6": 32}}
 
 
 def bounds(tier):
@@ -1029,6 +1170,8 @@ def bounds(tier):
                "modifiers": [None, "full", "val", "name"]},
         "F5": {"headers": HEADERS, "footers": FOOTERS, "titles": len(TITLES)},
         "F6": {"records": [4, 7 if th else 6]},
+        "F10": {"values": [repr(x) for x in V_EQUAL], "one_column_records": "1..3", "two_column": "all value pairs",
+                "two_table_sequences": "all pairs of value sequences of length 1..2, no state reset in between"},
         "F8": {"base_records": "<= 3" if th else "<= 2", "appended_records": "1..2 over 4 values (shorter, longer, None, a|b)",
                "widths": 5, "limits": [None, [1, 1], [2, 0]], "break_by": [0, 1]},
         "F9": {"first_tables": len(_f9_first_tables()), "records2": 3, "limits2": ["absent", [None, None], [1, 1], [0, 0]],
